@@ -21,6 +21,12 @@ CHECKS = {
         "Tied to the code every run on all paths (hook switches SSSE3 off; 386 build reaches the !amd64 file): buffers end at / start after PROT_NONE pages, canaries at up to 64 alignments, lengths 0..130 and around 2^16 and 2^17, every 16-bit word value per path. Machine-level memory accesses of the assembly are observed, not proved.",
    technique="Rocq proof: table decomposition by linearity of fmul + loop/dispatch index arithmetic; guard-page differential correspondence check on all dispatch paths",
    design="6/C09", note=NOTE + "SSSE3 lane shuffles are modelled word-wise (each output word from the same-index input word); the byte permutations of STANDARD_TO_ALT/ALT_TO_STANDARD are covered by the differential check only."),
+ "C11": dict(
+   cat="proof",
+   text="Theorems (Props/C11.v, closed): for the Gauss-Jordan model that follows gf2p16/matrix.go step by step (first non-zero pivot, swap, scale, eliminate below, second pass above) and every well-formed M, N of every dimension: RowReduceForInverse returns the UNIQUE X with M X = N or the singular error and never panics; Inverse returns a two-sided inverse; success implies M is injective (non-singular); the Ok/Err outcome depends on M only; Times is the row-by-column product and is associative. Proof by the invariant 'row operations preserve the solution set' plus the echelon/reduced shape invariants, over an abstract characteristic-2 field instantiated with C08's field. "
+        "Not yet proved: Err implies the existence of a kernel vector (the converse of 'success implies non-singular'); this half is covered by the differential check only (rank-deficient-by-construction matrices at every elimination stage). Tied to the code by structured matrices of every dimension 1..40 (thorough ..300); operands re-read after each call.",
+   technique="Rocq proof: solution-set invariant under row operations + echelon shape invariants by induction; differential correspondence check with structured/rank-deficient generators",
+   design="6/C11", note=NOTE + "Row scaling/addition in Go go through the bulk kernels (C09); the model applies fmul element-wise."),
 }
 
 def main():
